@@ -90,6 +90,11 @@ func (rs reviewSpec) body(withRequest bool, apiVersion, kind string, pad int) []
 		rv.Request = &admissionv1.AdmissionRequest{UID: types.UID(rs.UID), Kind: metav1.GroupVersionKind{Version: "v1", Kind: "Pod"},
 			Resource: metav1.GroupVersionResource{Version: "v1", Resource: "pods"}, RequestSubResource: rs.Sub, Namespace: rs.Namespace, Name: pod.Name,
 			Operation: admissionv1.Operation(rs.Op), UserInfo: authenticationv1.UserInfo{Username: rs.User}, Object: runtime.RawExtension{Raw: raw}}
+		// a server-side dry run (kubectl --dry-run=server) is judged like the real thing
+		if len(rs.UID)%3 == 0 {
+			yes := true
+			rv.Request.DryRun = &yes
+		}
 	}
 	b, _ := json.Marshal(rv)
 	return b
